@@ -763,6 +763,8 @@ def numpy_binning(
     numpy.histogram
     static_binning
     """
+    if isinstance(bin_count, np.integer):
+        bin_count = int(bin_count)
     if not isinstance(bin_count, int):
         raise TypeError("bin_count must be a number.")
     if range:
